@@ -28,6 +28,7 @@ def gen_tx(rng, profile="normal", segwit=None):
     f_empty_stack = rng.random() < 0.3  # some inputs with an empty witness stack
     f_empty_item = rng.random() < 0.3
     f_nonfinal = rng.random() < 0.5
+    f_lookalike = rng.random() < 0.25   # scripts whose BYTES look like another kind of input the builders accept (keys, address text)
 
     def slen(boundary, small, bigs):
         nonlocal big_budget
@@ -50,6 +51,12 @@ def gen_tx(rng, profile="normal", segwit=None):
     for _ in range(n_out):
         vout.append({"value": rng.choice(VALUES) if rng.random() < 0.6 else rng.getrandbits(rng.choice([8, 32, 51, 64])),
                      "script": rand_bytes(rng, slen(f_scripts, SCRIPT_LENS_SMALL, SCRIPT_LENS_BIG)).hex()})
+    if f_lookalike and profile != "many":
+        for o in vout:
+            if rng.random() < 0.7:
+                o["script"] = lookalike_script(rng).hex()
+        if rng.random() < 0.3:
+            vin[0]["script"] = lookalike_script(rng).hex()
     wit = None
     if segwit:
         wit = []
@@ -88,6 +95,29 @@ def tx_class(t):
     if max([len(i["script"]) // 2 for i in t["vin"]] + [len(o["script"]) // 2 for o in t["vout"]]) >= 253:
         parts.append("script>=253")
     return "+".join(parts)
+
+
+def lookalike_script(rng):
+    """script BYTES that are, read as something else, a valid public key / the text of a valid address / a bare hash: a script
+    field is opaque, whatever its content resembles"""
+    from ..ref import secp, base58 as r58, bech32 as rb
+    c = rng.randrange(8)
+    pt = secp.pub(rng.randrange(1, 5000))
+    if c == 0:
+        return secp.sec1_encode(pt, True)
+    if c == 1:
+        return secp.sec1_encode(pt, False)
+    if c == 2:
+        return r58.check_encode(bytes([rng.choice([0x00, 0x05, 0x6F, 0xC4])]) + rand_bytes(rng, 20))
+    if c == 3:
+        return rb.encode_segwit(rng.choice(["bc", "tb", "bcrt"]), 0, rand_bytes(rng, rng.choice([20, 32])))
+    if c == 4:
+        return rb.encode_segwit(rng.choice(["bc", "tb"]), 1, rand_bytes(rng, 32))
+    if c == 5:
+        return rand_bytes(rng, rng.choice([20, 32]))
+    if c == 6:
+        return r58.check_encode(b"\x80" + rand_bytes(rng, 32) + b"\x01")      # a WIF string
+    return rand_bytes(rng, 32).hex().encode()                                   # hex TEXT
 
 
 def lib_serialise(t):
